@@ -54,6 +54,12 @@ def render_hb(case, rng, rb=False):
         colptr.append(len(rowind) + 1)
     pw, pp = rng.choice([(8, 10), (5, 16), (20, 4), (6, 12)])
     iw, ip = rng.choice([(8, 10), (5, 16), (10, 8), (4, 20)])
+    if rng.random() < 0.35:      # tight descriptors: the widest value fills its field, fields abut without a blank
+        pw = len(str(max(colptr)))
+        pp = rng.choice([80 // pw, max(1, 40 // pw)])
+    if rng.random() < 0.35 and rowind:
+        iw = len(str(max(rowind)))
+        ip = rng.choice([80 // iw, max(1, 40 // iw)])
     kind = rng.choice(["E", "E", "D", "F"])
     vw, vd, vp = rng.choice([(20, 10, 4), (16, 8, 5), (26, 16, 3), (14, 6, 5)]) if kind != "F" else rng.choice([(12, 4, 6), (20, 6, 4), (10, 3, 8)])
     pl, il, vl = fmt_ints(colptr, pp, pw), fmt_ints(rowind, ip, iw), fmt_reals(vals, vp, vw, vd, kind)
